@@ -16,7 +16,15 @@ for line in log.splitlines():
     S = "%s/%s" % (OUT, k)
     meta = json.load(open(S + "/meta.json"))
     prop = meta["property"]
-    D = "/verif/seeded/%s-%d" % (prop, 3 + int(k))
+    import glob
+    pd = open(S + "/patch.diff").read()
+    if any(open(x).read() == pd for x in glob.glob("/verif/seeded/%s-*/patch.diff" % prop)):
+        print("already stored", P, k)
+        continue
+    nxt = 1
+    while os.path.exists("/verif/seeded/%s-%d" % (prop, nxt)):
+        nxt += 1
+    D = "/verif/seeded/%s-%d" % (prop, nxt)
     os.makedirs(D, exist_ok=True)
     shutil.copy(S + "/patch.diff", D)
     for f in ("demo_test.rs", "demo_test.patch"):
@@ -24,7 +32,7 @@ for line in log.splitlines():
             shutil.copy(S + "/" + f, D)
     if os.path.isdir(S + "/demo"):
         shutil.copytree(S + "/demo", D + "/demo", dirs_exist_ok=True, ignore=shutil.ignore_patterns("target", "Cargo.lock"))
-    meta["round"] = 2
+    meta["round"] = int(P[1]) if P[1].isdigit() else 2
     meta["confirmed_by_me"] = dict(procedure="tools/verify_seed2.py %s in scratch worktree /tmp/wt/%s (repo HEAD %s)" % (P, P, head), result=rest)
     json.dump(meta, open(D + "/meta.json", "w"), indent=1)
     print("stored", D)
